@@ -192,7 +192,7 @@ var c07Corpus = []string{
 	"if a { b ; \" }", "for a { ) ; b }", "try { ) \n a } except { }", "a ; ) ; b", "a\n)\nb",
 	"func f() { a ; ) ; b }", "sink s kindmatch [\"a\"] { ) \n b }", "mutex m { ; \" }",
 	// odd corners read off the parser
-	"", " ", "a[\"", "a[", "a[1", "a.\"", "a(\"", "if {a} {b}", "for {a} {b}", "if a {} elif {} {} else {}",
+	"", " ", "a[\"", "a[/*", "a[\"\n\"", "a[", "a[1", "a.\"", "a(\"", "if {a} {b}", "for {a} {b}", "if a {} elif {} {} else {}",
 	"return\n1", "return 1", "a\n[1]", "a [1]", "{1}", "{1:2, 3}", "[1 2 3]", "f(1 2,)", "let a := 1",
 	"try { } except \"a\", \"b\" as e { } except e { } except { } otherwise { } finally { }",
 	"try { } finally { } otherwise { }", "try { } except as { }", "import \"a\" as b", "import a as b", "import \"a\" b",
